@@ -137,6 +137,11 @@ func (br *botRunner) UpdateTableState(table *pokertable.Table) error {
 
 	//fmt.Printf("Bot (player_id=%s, gameIdx=%d, event=%s)\n", br.playerID, gamePlayerIdx, gs.Status.CurrentEvent)
 
+	// the table is already marked as playing a moment before the first hand state arrives
+	if gs == nil {
+		return nil
+	}
+
 	// game is running so we have to check actions allowed
 	player := gs.GetPlayer(gamePlayerIdx)
 	if player == nil {
